@@ -86,6 +86,14 @@ Begin(c) ==
   /\ Ck("RetailWasteAsConfigured", \A w \in {c.wSf, c.wCrop, c.wMeat, c.wScp, c.wCs, c.wSw} : Eq(w, c.wRetail))
   \* the unit everything is measured in: the monthly requirement of the run's population (30 days at the daily requirement)
   /\ Ck("RequirementIsPopulationNeed", Eq(c.popNeed, One) /\ Eq(c.monthDays, I(30)))
+  \* the intake caps in force are the documented ones of the scenario's intake-cap mode (people: 10 / 50 / 40 % of the diet from
+  \* seaweed / single-cell protein / cellulosic sugar, or 100 % each when the caps are disabled for people; feed 10 / 43 / 10;
+  \* biofuel 10 / 100 / 100)
+  /\ Ck("IntakeCapsAsConfigured", c.capsCfg = "unknown" \/
+         LET h == IF c.capsCfg = "enabled" THEN [sw |-> I(10), scp |-> I(50), cs |-> I(40)] ELSE [sw |-> I(100), scp |-> I(100), cs |-> I(100)]
+         IN /\ \A k \in {"sw", "scp", "cs"} : Eq(c.capH[k], h[k])
+            /\ Eq(c.capF.sw, I(10)) /\ Eq(c.capF.scp, I(43)) /\ Eq(c.capF.cs, I(10))
+            /\ Eq(c.capB.sw, I(10)) /\ Eq(c.capB.scp, I(100)) /\ Eq(c.capB.cs, I(100)))
   /\ Ck("WasteFactors", /\ IsGross(c.gSf, c.wSf) /\ IsGross(c.gCrop, c.wCrop) /\ IsGross(c.gMeat, c.wMeat)
                         /\ IsGross(c.gScp, c.wScp) /\ IsGross(c.gCs, c.wCs) /\ IsGross(c.gSw, c.wSw))
   /\ rc' = c
